@@ -517,7 +517,8 @@ class Respondent(httping.Parsent):
                            httping.FOUND,
                            httping.SEE_OTHER,
                            httping.TEMPORARY_REDIRECT):
-            self.redirectant = True
+            # can only follow a redirect that says where to
+            self.redirectant = True if self.headers.get("location") else False
 
         self.headed = True
         yield True
